@@ -74,7 +74,7 @@ pub fn gen_embedded_stream(dna: &mut Dna, allow_syn: bool, size: usize) -> (Vec<
             &SynOpts {
                 exotic_pct: 0,
                 trailing_garbage_pct: 0,
-                max_plain: 100_000,
+                max_plain: if size <= 4_100 { 12_000 } else { 100_000 },
             },
         );
         let stream = s.bytes[..s.stream_len].to_vec();
